@@ -767,9 +767,26 @@ func (x *Exec) simple(fr *Frame, st *State, in ssa.Instruction) bool {
 	case *ssa.Lookup:
 		x.lookup(fr, st, v)
 	case *ssa.Range:
+		if _, _, ok := x.mapArrays(st, v.X.Type()); ok {
+			// an iterator over a map with scalar keys: a ghost cell holds the set of keys it has yielded so far
+			ks, _ := x.mapKeySort(v.X.Type())
+			id := len(st.CellTypes) + 1
+			st.CellTypes[id] = nil
+			st.Cells[id] = &Val{K: VArr, T: &Term{K: TApp, Op: "(as const " + SArr(ks, SBool) + ")", Args: []*Term{FalseT}, Sort: SArr(ks, SBool)}}
+			fr.regs[v] = &Val{K: VPtr, Typ: v.Type(), Ptr: &PtrInfo{Base: PCell, Cell: id}}
+			break
+		}
 		x.note("range over map/string in " + fr.fn.Name())
 		fr.regs[v] = opaqueVal(v.Type())
 	case *ssa.Next:
+		if rg, ok := v.Iter.(*ssa.Range); ok && !v.IsString {
+			if it, ok := fr.regs[rg]; ok && it.K == VPtr && it.Ptr != nil && it.Ptr.Base == PCell {
+				if cur, ok := st.Cells[it.Ptr.Cell]; ok && cur.K == VArr {
+					x.mapNext(fr, st, v, rg, it.Ptr.Cell, cur.T)
+					break
+				}
+			}
+		}
 		x.note("range over map/string in " + fr.fn.Name())
 		fr.regs[v] = freshVal(v.Type(), "next", true)
 	case *ssa.Phi:
@@ -1332,6 +1349,34 @@ func (x *Exec) mapValArr(st *State, t types.Type, l Leaf) (string, *Term) {
 	return key, a
 }
 
+// mapNext: one step of a map iteration. The iterator either yields a key of the map it has not yielded before (order
+// unknown: Go randomises it) or reports the end, and the end is reported only when every key has been yielded.
+func (x *Exec) mapNext(fr *Frame, st *State, v *ssa.Next, rg *ssa.Range, cell int, yielded *Term) {
+	m := x.get(fr, st, rg.X)
+	_, has, _ := x.mapArrays(st, rg.X.Type())
+	ks, _ := x.mapKeySort(rg.X.Type())
+	ok := Const(freshName("next:ok"), SBool)
+	key := Const(freshName("next:key"), ks)
+	hasM := Select(has, m.T)
+	nonNil := Neq(m.T, Num(0))
+	st.Assume(Implies(ok, And(nonNil, Select(hasM, key), Not(Select(yielded, key)))))
+	k := Bound("k", ks)
+	st.Assume(Implies(Not(ok), Forall([]*Term{k}, Implies(And(nonNil, Select(hasM, k)), Select(yielded, k)), []*Term{Select(hasM, k)})))
+	st.Cells[cell] = &Val{K: VArr, T: x.defineAlways(st, Ite(ok, Store(yielded, key, TrueT), yielded), "yielded")}
+	tu := v.Type().(*types.Tuple)
+	kt, et := mapTypes(rg.X.Type())
+	var ls []*Term
+	for _, l := range flatten(et) {
+		_, arr := x.mapValArr(st, rg.X.Type(), l)
+		ls = append(ls, Select(Select(arr, m.T), key))
+	}
+	val := mkVal(et, &ls)
+	keyLeaves := []*Term{key}
+	keyVal := mkVal(kt, &keyLeaves)
+	_ = tu
+	fr.regs[v] = &Val{K: VTuple, Typ: v.Type(), Fields: []*Val{boolVal(ok), keyVal, val}}
+}
+
 func (x *Exec) mapInitEmpty(st *State, m *Val) {
 	hk, has, ok := x.mapArrays(st, m.Typ)
 	if !ok {
@@ -1339,7 +1384,8 @@ func (x *Exec) mapInitEmpty(st *State, m *Val) {
 		return
 	}
 	ks, _ := x.mapKeySort(m.Typ)
-	empty := Const("emptyset:"+ks, SArr(ks, SBool))
+	// the empty key set: a constant array of false
+	empty := &Term{K: TApp, Op: "(as const " + SArr(ks, SBool) + ")", Args: []*Term{FalseT}, Sort: SArr(ks, SBool)}
 	st.setHeap(hk, Store(has, m.T, empty))
 }
 
